@@ -1160,7 +1160,10 @@ class DataFieldRecordArray(
                 # Create a ndarray with the final data type and then assign the
                 # values from the data, which technically is a copy.
                 field_arr = np.empty((length,), dtype=dt)
-                np.copyto(field_arr, data_table_accessor.get_column(data, fname))
+                np.copyto(
+                    field_arr,
+                    data_table_accessor.get_column(data, fname),
+                    casting='unsafe')
             else:
                 field_arr = data_table_accessor.get_column(data, fname)
 
